@@ -207,8 +207,14 @@ class Interp:
             raise Undecided(f"instantiation of foreign class {cls.__name__} with symbolic arguments")
         if ops.all_deep_concrete(args) and ops.all_deep_concrete(kwargs.values()) and \
                 not getattr(cls, "__pyvc_interpret_init__", False):
-            return self.native(cls, args, kwargs)
-        obj = object.__new__(cls)
+            obj = self.native(cls, args, kwargs)
+            d = getattr(obj, "__dict__", None)
+            if isinstance(d, dict):
+                for k, v in list(d.items()):
+                    if type(v) is bytearray:  # bytearrays owned by interpreted objects are symbolic-capable
+                        d[k] = SBytes.const(v, True)
+            return obj
+        obj = cls.__new__(cls)
         init = inspect.getattr_static(cls, "__init__")
         generated = isinstance(init, types.FunctionType) and init.__code__.co_filename.startswith("<")
         if dataclasses.is_dataclass(cls) and (generated or not is_interpretable(init)):
